@@ -15,7 +15,7 @@ structure ObjInv (x : Obj) : Prop where
   tokNone : x.live = true → pendingish x.w = false → tokens x = 0
   tokFresh : x.live = true → x.fresh = true → tokens x = 0 ∧ x.w.st = sPending ∧ x.owner = none ∧ x.inPhase = false
   hold : ∀ a, x.holder = some a → x.hexp = x.w
-  helpersActive : ∀ w ∈ x.helpers, w.st = sActive
+  helpersActive : ∀ h ∈ x.helpers, h.1.st = sActive
   resNotActive : x.ranPhase = true → x.result ≠ sActive
   boostPusher : x.live = true → x.w.st = sBoost → x.pusher.isSome = true
 
